@@ -727,7 +727,17 @@ def sig_case_client(declared, sign_alg, blob_name, disabled, universe, exch="ini
         s.close()
 
 
-def sig_case_server(declared, sign_alg, blob_name, disabled, universe, user="u", probe=None):
+BANNERS = {      # class of client identification string (SigAlg.tla Banners) -> what the scripted client announces
+    "paramiko": None,
+    "openssh_7_2": "SSH-2.0-OpenSSH_7.2p2 Ubuntu-4ubuntu2.10",
+    "openssh_7_4": "SSH-2.0-OpenSSH_7.4",
+    "openssh_7_7": "SSH-2.0-OpenSSH_7.7",
+    "openssh_8_9": "SSH-2.0-OpenSSH_8.9p1 Ubuntu-3ubuntu0.6",
+    "putty": "SSH-2.0-PuTTY_Release_0.80",
+}
+
+
+def sig_case_server(declared, sign_alg, blob_name, disabled, universe, user="u", probe=None, banner="paramiko"):
     """paramiko is the server (publickey algorithms in `disabled` disabled); a hand-driven client sends one
     USERAUTH_REQUEST declaring `declared`, with the bundled key of sign_alg's family and a genuine signature made
     with sign_alg over the correct session blob, the signature blob naming blob_name.  probe: algorithm named by an
@@ -739,6 +749,8 @@ def sig_case_server(declared, sign_alg, blob_name, disabled, universe, user="u",
     s = KSession(kex=FAST_KEX, hostalg="ssh-ed25519", server=srv,
                  server_kw={"disabled_algorithms": {"pubkeys": list(disabled)}})
     enabled = enabled_of(s.ts.preferred_pubkeys, universe)
+    if BANNERS[banner]:
+        s.tc.local_version = BANNERS[banner]     # the identification string is the client's to choose
     got, cv = [], threading.Condition()
 
     def handler(t):
@@ -802,7 +814,8 @@ def sig_case_server(declared, sign_alg, blob_name, disabled, universe, user="u",
         outcome = ("success" if MSG_USERAUTH_SUCCESS in got else "failure" if MSG_USERAUTH_FAILURE in got
                    else "disconnect" if not s.ts.is_active() else "silent")
         return {"side": "server", "declared": declared, "sign": sign_alg, "blob": blob_name, "enabled": enabled,
-                "probe": probe or "none", "probe_ok": probe_ok,
+                "probe": probe or "none", "probe_ok": probe_ok, "banner": banner,
+                "banner_seen": s.ts.remote_version,
                 "negotiated": declared, "reached": any(x[0] == "check_auth_publickey" for x in srv.cb),
                 "accepted": bool(s.ts.is_authenticated()) or outcome == "success", "active": bool(s.ts.is_active()),
                 "error": outcome}
